@@ -19,7 +19,9 @@ RULE = {
 ASSUMPTIONS = {"C15": ["'terminates' is restated as: returns within 30 s of CPU time per text (watchdog firing = inconclusive)", "line numbers are judged against text.splitlines(); the line text of the exception is recorded as a diagnostic only"]}
 REQUIRED = {"C15": ["rv_texts", "toy_texts", "parser_exceptions", "loads_ok", "memory_size_or_address_errors", "soups", "runtime_faults_single", "runtime_faults_five", "hostile_literals_injected", "line_numbers_checked", "runtime_cases_with_cache", "failing_address_footprints_checked"]}
 
-HOSTILE = ["010", "-01", "00", "007", "0x", "0b", "0b2", "0X1", "0B1", "1e3", "1_0", "1_000", "１２", "١٢", "123456789012345678901234567890", "-123456789012345678901234567890", "+5", "--5", "0x-5", "5-", "0xg", "1.5", "''", "0x1_0", "0o17", "0b", "-", "0b102", "09", "-0", "-00", "0x00000000000000000000000000001", "1 2", "²", "0٠"]
+HOSTILE = ["010", "-01", "00", "007", "0x", "0b", "0b2", "0X1", "0B1", "1e3", "1_0", "1_000", "１２", "١٢", "123456789012345678901234567890", "-123456789012345678901234567890", "+5", "--5", "0x-5", "5-", "0xg", "1.5", "''", "0x1_0", "0o17", "0b", "-", "0b102", "09", "-0", "-00", "0x00000000000000000000000000001", "1 2", "²", "0٠",
+           # well-formed numbers of the other bases: legal in most positions, unexpected in some (indices, counts, shift amounts)
+           "0x2", "0b1", "0x0", "0b0", "-2", "0X2", "0B1", "0x1F", "-0x1"]
 
 
 def plan(prop, tier, seed):
@@ -170,7 +172,7 @@ def inject(rng, text, ast):
     if k < 0.72:
         import re
 
-        lines[i] = re.sub(r"\b(L\d+|loop_\d+|_x\d+y|Label\d+|end\d+|v\d+|my_var\d+|buf_\d+|_d\d+|Arr\d+_x)\b", rng.choice(["nowhere", "x1", "add", "zero", "_", "L0:", "v0[", "v0[]", "v0[-1]", "v0[99999999999999999999]", "v0[010]"]), l, count=1)
+        lines[i] = re.sub(r"\b(L\d+|loop_\d+|_x\d+y|Label\d+|end\d+|v\d+|my_var\d+|buf_\d+|_d\d+|Arr\d+_x)\b", rng.choice(["nowhere", "x1", "add", "zero", "_", "L0:", "v0[", "v0[]", "v0[-1]", "v0[99999999999999999999]", "v0[010]", "v0[0x1]", "v0[0b1]", "v0[0x0]", "v0[0X1]", "v0[-0]", "v0[0x]", "v0[1][0]", "v0[ 1 ]"]), l, count=1)
         return "\n".join(lines), "unknown-name"
     if k < 0.78:
         lines.insert(i, lines[i])
@@ -386,11 +388,20 @@ def run_unimpl_case(case, res):
     too, is an instruction-execution error carrying the address and the printed form of the instruction"""
     from architecture_simulator.simulation.runtime_errors import InstructionExecutionException
 
-    sim = make_riscv("single")
+    for mode in ("single", "five"):
+        if not _run_unimpl(case, res, mode):
+            return
+
+
+def _run_unimpl(case, res, mode):
+    """(five-stage mode: whichever of these instructions fails there - on the pinned tree ebreak - is judged the same way)"""
+    from architecture_simulator.simulation.runtime_errors import InstructionExecutionException
+
+    sim = make_riscv(mode)
     try:
         sim.load_program(case["text"])
     except Exception:
-        return
+        return False
     lst = dict(sim.state.instruction_memory.get_representation())
     n = 0
     try:
@@ -398,16 +409,16 @@ def run_unimpl_case(case, res):
             sim.step()
             n += 1
     except InstructionExecutionException as e:
-        res.count("unimplemented_instruction_failures")
+        res.count("unimplemented_instruction_failures" + ("_five_stage" if mode == "five" else ""))
         if lst.get(e.address) != e.instruction_repr or e.address != case["at"]:
-            res.violation("C15", "runtime-report", "failure of %r reported with address %r and text %r; the listing has %r there (failing instruction at %d)" % (case["instr"], e.address, e.instruction_repr, lst.get(e.address), case["at"]), case)
-            return
-        front_end_view(e, res, case)
-        return
+            res.violation("C15", "runtime-report", "%s mode: failure of %r reported with address %r and text %r; the listing has %r there (failing instruction at %d)" % (mode, case["instr"], e.address, e.instruction_repr, lst.get(e.address), case["at"]), case)
+            return False
+        return front_end_view(e, res, case)
     except Exception as e:
-        res.violation("C15", "untyped-runtime-error", "single-cycle: a failing %r raised %s: %s instead of an instruction-execution error" % (case["instr"], type(e).__name__, str(e)[:100]), case)
-        return
+        res.violation("C15", "untyped-runtime-error", "%s mode: a failing %r raised %s: %s instead of an instruction-execution error" % (mode, case["instr"], type(e).__name__, str(e)[:100]), case)
+        return False
     res.count("unimplemented_instruction_ran")
+    return True
 
 
 def run_case(prop, case, res):
